@@ -163,10 +163,9 @@ def check_continuation(acc, name, dtv, ns, units):
         return
     # the single run itself must have sum(ns)+1 instants, else the comparison is about C11, not C12
     if len(ref_segs[-1]['time']) != sum(ns) + 1:
+        # the single run itself has the wrong number of instants: that is C11's subject; the comparison is skipped
         acc.outcomes['single-run-axis-wrong(C11)'] += 1
-        tag = 'c11-overrun-in-single-run'
-        acc.violation(f'C12/continuation/{tag}/{binary}', 'single run has n+1 instants', case,
-                      {'got': len(ref_segs[-1]['time']), 'expected': sum(ns) + 1})
+        acc.ambiguous += 1
         return
     d = compare(segs[-1], ref_segs[-1], exact=False)
     acc.outcomes[('cont', unit_tag, 'equal' if d is None else d[0])] += 1
